@@ -354,7 +354,13 @@ fn corner_tree(rng: &mut Rng) -> GTree {
     let ns = |p: usize, n: usize| GTree::leaf(GValue::Namespace(p, n));
     let at = |n: usize, v: &str| GTree::leaf(GValue::Attribute(n, v.into()));
     let tx = |t: &str| GTree::leaf(GValue::Text(t.into()));
-    match rng.below(9) {
+    match rng.below(12) {
+        // one namespace used twice inside the source: first under a declaration of its own, later
+        // relying on the ancestor's prefix (seed C12i: an answer remembered per namespace)
+        9 => e(2, vec![ns(2, NS_A), e(4, vec![e(6, vec![ns(3, NS_A)]), e(7, vec![])])]),
+        10 => e(2, vec![ns(2, NS_A), e(4, vec![e(3, vec![ns(3, NS_A), at(6, "v")]), e(3, vec![at(7, "w")])])]),
+        // ... and the other way round
+        11 => e(2, vec![ns(2, NS_B), e(4, vec![e(9, vec![at(10, "w")]), e(9, vec![ns(3, NS_B), at(10, "v")])])]),
         // prefix on the ancestor, used by descendants
         0 => e(2, vec![ns(2, NS_A), e(6, vec![e(7, vec![e(8, vec![])])])]),
         // prefixed attribute whose namespace is also the default namespace declared on the source
@@ -959,9 +965,62 @@ fn xml_id_clone_cases(rng: &mut Rng, sink: &mut Sink, n: usize) {
     }
 }
 
+/// clone_with_prefixes of an inner element of a parsed document whose children use each namespace
+/// several times, some under a declaration of their own and some through a prefix declared above
+/// the source, in every order (seed C12i).  Implementation-only oracle: the source serialised in
+/// place, so the clone serialises on its own and reparses deep-equal to the source.
+fn scope_clone_cases(rng: &mut Rng, sink: &mut Sink, n: usize) {
+    for _ in 0..n {
+        let mut body = String::new();
+        for _ in 0..(2 + rng.below(4)) {
+            let (pfx_above, uri) = *rng.pick(&[("p", "urn:a"), ("q", "urn:b")]);
+            let own = rng.chance(1, 2);
+            let pfx = if own { *rng.pick(&["x", "y", pfx_above]) } else { pfx_above };
+            let decl = if own { format!(" xmlns:{}=\"{}\"", pfx, uri) } else { String::new() };
+            match rng.below(3) {
+                0 => body.push_str(&format!("<{}:k{}/>", pfx, decl)),
+                1 => body.push_str(&format!("<n {}:a=\"v\"{}/>", pfx, decl)),
+                _ => body.push_str(&format!("<n{}><{}:k {}:a=\"v\"/></n>", decl, pfx, pfx)),
+            }
+        }
+        let text = format!("<r xmlns:p=\"urn:a\" xmlns:q=\"urn:b\"><m>{}</m></r>", body);
+        let mut xot = xot::Xot::new();
+        let doc = match xot.parse(&text) {
+            Ok(d) => d,
+            Err(_) => continue,
+        };
+        let m = xot.first_child(xot.document_element(doc).unwrap()).unwrap();
+        sink.stat("scope-clone.cases");
+        let clone = match crate::common::guarded(|| xot.clone_with_prefixes(m)) {
+            Some(c) => c,
+            None => {
+                sink.fail("C12", "C12:clone_with_prefixes-panics:element", &format!("clone_with_prefixes(<m>) of `{}` panicked", text), &[text.clone()]);
+                continue;
+            }
+        };
+        match crate::common::guarded(|| xot.to_string(clone)) {
+            Some(Ok(out)) => match xot.parse(&out) {
+                Ok(d2) => {
+                    let e2 = xot.document_element(d2).unwrap();
+                    if !xot.deep_equal(e2, m) {
+                        sink.fail("C12", "C12:clone_with_prefixes-reparses-differently", &format!("`{}`: the clone of <m> serialises to `{}` which is not deep-equal to the source", text, out), &[text.clone()]);
+                    }
+                }
+                Err(e) => sink.fail("C12", "C12:clone_with_prefixes-output-does-not-parse", &format!("`{}`: `{}`: {:?}", text, out, e), &[text.clone()]),
+            },
+            Some(Err(e)) => sink.fail("C12", "C12:clone_with_prefixes-does-not-serialise:parsed-source", &format!("`{}`: the document serialises, the clone of <m> gives {:?}", text, e), &[text.clone()]),
+            None => sink.fail("C12", "C12:clone_with_prefixes-to_string-panics", &format!("`{}`: to_string(clone of <m>) panicked", text), &[text.clone()]),
+        }
+    }
+}
+
 pub fn run(seed: u64, count: usize, tier: &str, sink: &mut Sink) {
     if tier == "thorough" {
         exhaustive(sink);
+    }
+    {
+        let mut rng = Rng::new(seed ^ 0xC12E);
+        scope_clone_cases(&mut rng, sink, if tier == "quick" { 150 } else { 1500 });
     }
     {
         let mut rng = Rng::new(seed ^ 0xC12D);
